@@ -9,96 +9,44 @@ import (
 	"github.com/hashicorp/consul/internal/verifrt"
 )
 
-// C03: one KV operation (each of the seven store verbs) from an arbitrary valid
-// pre-state agrees with the sequential-map reference model in effect, reported
+// C03: one KV operation from an arbitrary valid pre-state agrees with the
+// sequential-map reference model (harness/state/kvmodel.go) in effect, reported
 // outcome, table indexes, tombstones and what get/list return afterwards.
-func VerifC03_KVStep_Setup() any { return vNewStore() }
+// The verbs are split over three harnesses so that independent dimensions of
+// the pre-state do not multiply.
 
-func VerifC03_KVStep(st any) {
-	s := st.(*Store)
-	maxKV, keyLen := 2, 2
+func vC03Bounds() (maxKV, keyLen int) {
 	if verifrt.Thorough() {
-		maxKV, keyLen = 3, 3
+		return 3, 3
 	}
-	m, idx := vKVPreState(s, maxKV, keyLen, true)
-	verifrt.Assert("C03.pre.model-agrees", vKVAgree(s, m) && vTombsAgree(s, m))
+	return 2, 2
+}
 
-	verb := verifrt.Choice("verb", 7)
-	key := vKey("op.key", keyLen)
-	val := vVal("op.val")
-	flags := verifrt.U64("op.flags")
-	var preCreate uint64
-	pi := m.find(key)
-	if pi >= 0 {
-		preCreate = m.kv[pi].create
-	}
-	preLock, preSess := uint64(0), ""
-	if pi >= 0 {
-		preLock, preSess = m.kv[pi].lockIndex, m.kv[pi].session
-	}
-	switch verb {
-	case 0: // set
-		li := verifrt.U64("op.lockindex")
-		err := s.KVSSet(idx, &structs.DirEntry{Key: key, Value: val, Flags: flags, LockIndex: li})
-		m.set(idx, key, val, flags, li)
-		verifrt.Assert("C03.set.no-error", err == nil)
-	case 1: // cas
-		li := verifrt.U64("op.lockindex")
-		cidx := verifrt.U64("op.cidx")
-		ok, err := s.KVSSetCAS(idx, &structs.DirEntry{Key: key, Value: val, Flags: flags, LockIndex: li,
-			RaftIndex: structs.RaftIndex{ModifyIndex: cidx}})
-		want := m.cas(idx, cidx, key, val, flags, li)
-		verifrt.Assert("C03.cas.result", err == nil && ok == want)
-	case 2: // delete
-		err := s.KVSDelete(idx, key, nil)
-		m.del(idx, key)
-		verifrt.Assert("C03.delete.no-error", err == nil)
-	case 3: // delete-cas
-		cidx := verifrt.U64("op.cidx")
-		ok, err := s.KVSDeleteCAS(idx, cidx, key, nil)
-		want := m.delCAS(idx, cidx, key)
-		verifrt.Assert("C03.deletecas.result", err == nil && ok == want)
-	case 4: // delete-tree (prefix may be empty)
-		prefix := key
-		if verifrt.Bool("op.emptyprefix") {
-			prefix = ""
-		}
-		err := s.KVSDeleteTree(idx, prefix, nil)
-		m.delTree(idx, prefix)
-		verifrt.Assert("C03.deletetree.no-error", err == nil)
-	case 5: // lock
-		sess := vSessionChoice("op.session", 4)
-		ok, err := s.KVSLock(idx, &structs.DirEntry{Key: key, Value: val, Flags: flags, Session: sess})
-		want, wantErr := m.lock(idx, key, sess, val, flags)
-		verifrt.Assert("C03.lock.result", (err != nil) == wantErr && ok == want)
-		if want && !wantErr {
-			j := m.find(key)
-			if preSess == "" {
-				verifrt.Assert("C03.lock.fresh-acquire-increments", m.kv[j].lockIndex == preLock+1)
-			} else {
-				verifrt.Assert("C03.lock.reacquire-keeps-counter", m.kv[j].lockIndex == preLock)
-			}
-		}
-	case 6: // unlock
-		sess := vSessionChoice("op.session", 4)
-		ok, err := s.KVSUnlock(idx, &structs.DirEntry{Key: key, Value: val, Flags: flags, Session: sess})
-		want, wantErr := m.unlock(idx, key, sess, val, flags)
-		verifrt.Assert("C03.unlock.result", (err != nil) == wantErr && ok == want)
-	}
+type vC03Pre struct {
+	present               bool
+	create, lock          uint64
+	session               string
+}
 
+func vC03Before(m *vKVModel, key string) vC03Pre {
+	if i := m.find(key); i >= 0 {
+		return vC03Pre{true, m.kv[i].create, m.kv[i].lockIndex, m.kv[i].session}
+	}
+	return vC03Pre{}
+}
+
+// vC03After: the committed store equals the model; reading the operated key
+// returns the model's entry.
+func vC03After(s *Store, m *vKVModel, key string, pre vC03Pre) {
 	verifrt.Assert("C03.post.kv-content", vKVAgree(s, m))
 	verifrt.Assert("C03.post.tombstones", vTombsAgree(s, m))
 	verifrt.Assert("C03.post.index-kvs", vIndex(s, tableKVs) == m.kvsIdx)
 	verifrt.Assert("C03.post.index-tombstones", vIndex(s, tableTombstones) == m.tombIdx)
-	if pi >= 0 {
-		if j := m.find(key); j >= 0 {
-			verifrt.Assert("C03.post.create-index-stable", m.kv[j].create == preCreate)
-		}
-	}
-
-	// reads: get of the operated key, list of an arbitrary short prefix
-	_, got, err := s.KVSGet(nil, key, nil)
 	j := m.find(key)
+	if pre.present && j >= 0 {
+		verifrt.Assert("C03.post.create-index-stable", m.kv[j].create == pre.create)
+	}
+	_, got, err := s.KVSGet(nil, key, nil)
 	if j < 0 {
 		verifrt.Assert("C03.get.absent", err == nil && got == nil)
 	} else {
@@ -107,10 +55,152 @@ func VerifC03_KVStep(st any) {
 			got.Flags == e.flags && got.Session == e.session && got.LockIndex == e.lockIndex &&
 			got.CreateIndex == e.create && got.ModifyIndex == e.modify)
 	}
-	prefix := ""
-	if verifrt.Bool("list.nonempty") {
-		prefix = verifrt.StrN("list.prefix", 1)
-		verifrt.Assume(prefix[0] != 0)
+}
+
+func VerifC03_Write_Setup() any { return vNewStore() }
+
+// set and check-and-set
+func VerifC03_Write(st any) {
+	s := st.(*Store)
+	maxKV, keyLen := vC03Bounds()
+	m, idx := vKVPreState(s, maxKV, keyLen, false, 2)
+	verifrt.Assert("C03.pre.model-agrees", vKVAgree(s, m))
+	key := vKey("op.key", keyLen)
+	val := vVal("op.val")
+	flags := verifrt.U64("op.flags")
+	li := verifrt.U64("op.lockindex")
+	// a plain write may carry any Session value; it must never become the holder
+	opSess := vSessionChoice("op.session", 3)
+	pre := vC03Before(m, key)
+	if verifrt.Choice("verb", 2) == 0 {
+		err := s.KVSSet(idx, &structs.DirEntry{Key: key, Value: val, Flags: flags, LockIndex: li, Session: opSess})
+		m.set(idx, key, val, flags, li)
+		verifrt.Assert("C03.set.no-error", err == nil)
+		verifrt.Reached("set")
+	} else {
+		cidx := verifrt.U64("op.cidx")
+		ok, err := s.KVSSetCAS(idx, &structs.DirEntry{Key: key, Value: val, Flags: flags, LockIndex: li, Session: opSess,
+			RaftIndex: structs.RaftIndex{ModifyIndex: cidx}})
+		want := m.cas(idx, cidx, key, val, flags, li)
+		verifrt.Assert("C03.cas.no-error", err == nil)
+		if want {
+			verifrt.Assert("C03.cas.reports-success-when-matched", ok)
+			verifrt.Reached("cas-applied")
+		} else {
+			verifrt.Assert("C03.cas.reports-failure-when-not-matched", !ok)
+			verifrt.Reached("cas-rejected")
+		}
+	}
+	vC03After(s, m, key, pre)
+}
+
+func VerifC03_Delete_Setup() any { return vNewStore() }
+
+// delete, delete-cas, delete-tree
+func VerifC03_Delete(st any) {
+	s := st.(*Store)
+	maxKV, keyLen := vC03Bounds()
+	m, idx := vKVPreState(s, maxKV, keyLen, true, 2)
+	verifrt.Assert("C03.pre.model-agrees", vKVAgree(s, m) && vTombsAgree(s, m))
+	key := vKey("op.key", keyLen)
+	pre := vC03Before(m, key)
+	switch verifrt.Choice("verb", 3) {
+	case 0:
+		err := s.KVSDelete(idx, key, nil)
+		m.del(idx, key)
+		verifrt.Assert("C03.delete.no-error", err == nil)
+		verifrt.Reached("delete")
+	case 1:
+		cidx := verifrt.U64("op.cidx")
+		ok, err := s.KVSDeleteCAS(idx, cidx, key, nil)
+		want := m.delCAS(idx, cidx, key)
+		verifrt.Assert("C03.deletecas.no-error", err == nil)
+		if want {
+			verifrt.Assert("C03.deletecas.reports-success-when-matched", ok)
+		} else {
+			verifrt.Assert("C03.deletecas.reports-failure-when-not-matched", !ok)
+		}
+		verifrt.Reached("deletecas")
+	case 2:
+		prefix := key
+		if verifrt.Bool("op.emptyprefix") {
+			prefix = ""
+		}
+		err := s.KVSDeleteTree(idx, prefix, nil)
+		m.delTree(idx, prefix)
+		verifrt.Assert("C03.deletetree.no-error", err == nil)
+		verifrt.Reached("deletetree")
+	}
+	vC03After(s, m, key, pre)
+}
+
+func VerifC03_Lock_Setup() any { return vNewStore() }
+
+// lock and unlock
+func VerifC03_Lock(st any) {
+	s := st.(*Store)
+	maxKV, keyLen := vC03Bounds()
+	m, idx := vKVPreState(s, maxKV, keyLen, false, 3)
+	key := vKey("op.key", keyLen)
+	val := vVal("op.val")
+	flags := verifrt.U64("op.flags")
+	sess := vSessionChoice("op.session", 4)
+	pre := vC03Before(m, key)
+	if verifrt.Choice("verb", 2) == 0 {
+		ok, err := s.KVSLock(idx, &structs.DirEntry{Key: key, Value: val, Flags: flags, Session: sess})
+		want, wantErr := m.lock(idx, key, sess, val, flags)
+		verifrt.Assert("C03.lock.error-iff-bad-session", (err != nil) == wantErr)
+		if want {
+			verifrt.Assert("C03.lock.acquired-when-free-or-held-by-caller", ok)
+			j := m.find(key)
+			if pre.session == "" {
+				verifrt.Assert("C03.lock.fresh-acquire-increments", m.kv[j].lockIndex == pre.lock+1)
+			} else {
+				verifrt.Assert("C03.lock.reacquire-keeps-counter", m.kv[j].lockIndex == pre.lock)
+			}
+			verifrt.Reached("lock-acquired")
+		} else {
+			verifrt.Assert("C03.lock.refused-when-held-by-other", !ok)
+			verifrt.Reached("lock-refused")
+		}
+	} else {
+		ok, err := s.KVSUnlock(idx, &structs.DirEntry{Key: key, Value: val, Flags: flags, Session: sess})
+		want, wantErr := m.unlock(idx, key, sess, val, flags)
+		verifrt.Assert("C03.unlock.error-iff-no-session", (err != nil) == wantErr)
+		if want {
+			verifrt.Assert("C03.unlock.released-by-holder", ok)
+			j := m.find(key)
+			verifrt.Assert("C03.unlock.keeps-counter", m.kv[j].lockIndex == pre.lock)
+			verifrt.Reached("unlock-released")
+		} else {
+			verifrt.Assert("C03.unlock.refused-for-non-holder", !ok)
+			verifrt.Reached("unlock-refused")
+		}
+	}
+	vC03After(s, m, key, pre)
+}
+
+func VerifC03_Read_Setup() any { return vNewStore() }
+
+// get and list return exactly the map's content (no write involved); also
+// tombstone reaping removes exactly the tombstones at or below the given index.
+func VerifC03_Read(st any) {
+	s := st.(*Store)
+	maxKV, keyLen := vC03Bounds()
+	m, idx := vKVPreState(s, maxKV, keyLen, true, 1)
+	if verifrt.Bool("reap") {
+		upTo := verifrt.U64("reap.index")
+		err := s.ReapTombstones(idx, upTo)
+		m.reap(upTo)
+		verifrt.Assert("C03.reap.no-error", err == nil)
+		verifrt.Assert("C03.reap.tombstones", vTombsAgree(s, m))
+		verifrt.Assert("C03.reap.kv-untouched", vKVAgree(s, m))
+		verifrt.Reached("reap")
+	}
+	plen := verifrt.Choice("list.prefixlen", keyLen+1)
+	prefix := verifrt.StrN("list.prefix", plen)
+	for i := 0; i < len(prefix); i++ {
+		verifrt.Assume(prefix[i] != 0)
 	}
 	_, ents, err := s.KVSList(nil, prefix, nil)
 	verifrt.Assert("C03.list.no-error", err == nil)
@@ -122,10 +212,16 @@ func VerifC03_KVStep(st any) {
 	}
 	verifrt.Assert("C03.list.count", len(ents) == want)
 	for i, d := range ents {
-		verifrt.Assert("C03.list.member", verifrt.HasPrefix(d.Key, prefix) && m.find(d.Key) >= 0)
+		j := m.find(d.Key)
+		verifrt.Assert("C03.list.member", verifrt.HasPrefix(d.Key, prefix) && j >= 0)
+		if j >= 0 {
+			e := m.kv[j]
+			verifrt.Assert("C03.list.entry-content", bytes.Equal(d.Value, e.value) && d.Flags == e.flags && d.LockIndex == e.lockIndex &&
+				d.CreateIndex == e.create && d.ModifyIndex == e.modify)
+		}
 		if i > 0 {
 			verifrt.Assert("C03.list.sorted", ents[i-1].Key < d.Key)
 		}
 	}
-	verifrt.Reached("end")
+	verifrt.Reached("list")
 }
